@@ -10,9 +10,12 @@ round trip).  Not decided: YAML serialisation by the yaml library.
 """
 
 import ast
+import collections
+import copy
+import os.path
 
 from sa.cfg import cfg_of
-from sa.fold import Evaluator, Obj, Raised, Unfoldable
+from sa.fold import Evaluator, Lifted, Obj, Raised, Unfoldable
 from sa.guards import decide_with, find_calls, kind_name
 from sa.loader import AnalysisError, call_name, calls_in, kwarg, walk_local
 
@@ -146,96 +149,195 @@ def r1(repo, res):
            found=ast.unparse(pc[0])[:140] if pc else "no call", key="profile-cmd-forward")
 
 
-def lift_update(repo):
-    f = repo.func("profile::Profile.update")
-    if len(f.args.args) != 2:
-        raise AnalysisError("Profile.update no longer takes (self, mapping)")
-    return f, f.args.args[0].arg, f.args.args[1].arg
+# documented type of every model parameter (docstrings of Profile.__init__); the reference for any later change
+TYPES = dict(gap=float, neutral_value=float, threshold=float, min_coverage=float, min_quality=int, min_mapq=int, phase=bool,
+             sam_long_reads=bool, sam_mappy_preset=str, cn_max=int, cn_pce_penalty=float, cn_diff=float, cn_fit=float,
+             cn_parsimony=float, cn_fusion_left=float, cn_fusion_right=float, major_novel=float, minor_miss=float,
+             minor_add=float, minor_phase=float, minor_phase_vars=int, male=bool, max_minor_solutions=int,
+             display_format=bool, debug_probe=str, debug_novel=bool, min_avg_coverage=float, vcf_sample_idx=int, indelpost=bool)
+NOT_PARAMETERS = {"name", "cn_region", "data", "cn_solution"}
+_GR = collections.namedtuple("GRange", ["chr", "start", "end"])
 
 
-DEFAULTS = dict(phase=True, male=False, gap=0.0, cn_max=20, sam_mappy_preset="map-hifi", cn_solution=None,
-                min_quality=10, threshold=0.5)
+class ProfileModel:
+    """The Profile class lifted into the folding language: constructor, typed update, file loader and profile
+    writer are the functions of /repo (sa.fold.Lifted, Python calling convention, defaults evaluated once); the file
+    system and the YAML library are replaced by an in-memory table of documents."""
+
+    def __init__(self, repo):
+        self.files = {}
+        model = self
+
+        class P(Obj):
+            _fold_ok = True
+
+            def update(me, *a, **k):
+                return model.update(me, *a, **k)
+
+        self.P = P
+        funcs = {"GRange": _GR, "natsorted": sorted, "defaultdict": collections.defaultdict, "Profile": self.new,
+                 "os.path.exists": lambda q: q in self.files, "os.path.isfile": lambda q: q in self.files,
+                 "os.path.splitext": os.path.splitext, "open": lambda q, *a: Obj(path=q),
+                 "yaml.safe_load": lambda f: copy.deepcopy(self.files[f.path]), "script_path": lambda q: q,
+                 "chr_prefix": lambda c, names: ""}
+        self.init = Lifted(repo.func("profile::Profile.__init__"), funcs)
+        self.update = Lifted(repo.func("profile::Profile.update"), funcs)
+        self.write = Lifted(repo.func("profile::Profile.get_sam_profile_data"), funcs)
+        funcs["Profile.get_sam_profile_data"] = self.write
+        self.load = Lifted(repo.func("profile::Profile.load"), funcs)
+        funcs["Profile.load"] = self.load
+
+    def new(self, *a, **kw):
+        me = self.P()
+        self.init(me, *a, **kw)
+        return me
 
 
-def call_update(f, selfname, argname, mapping):
-    me = Obj(**dict(DEFAULTS))
-    ev = Evaluator({selfname: me, argname: dict(mapping)})
-    kind, val = ev.run(f.body)
-    return kind, val, me
+GENE = Obj(name="G", genome="hg19", regions=[{"e1": _GR("22", 10, 20)}])
+
+
+def profile_doc(options=None):
+    d = {"neutral": {"value": 10, "hg19": ["22", 100, 110]}, "G": {"e1": [7]}}
+    if options is not None:
+        d["options"] = dict(options)
+    return d
+
+
+def spellings(typ):
+    """(given, expected value | 'raise') for a parameter of the documented type."""
+    if typ is bool:
+        return [(s_, True) for s_ in TRUE_SPELLINGS] + [(s_, False) for s_ in FALSE_SPELLINGS] + [(s_, "raise") for s_ in MALFORMED_BOOL]
+    if typ is float:
+        return [("0.75", 0.75), (0.75, 0.75), ("3", 3.0), (3, 3.0), ("1e-1", 0.1), ("abc", "raise")]
+    if typ is int:
+        return [("5", 5), (5, 5), ("0", 0), ("x", "raise"), ("5.5", "raise")]
+    return [("map-ont", "map-ont"), ("", "")]
+
+
+def attempt(fn):
+    try:
+        return "return", fn()
+    except Raised as r:
+        return "raise", r.kind
+
+
+def same(v, exp):
+    return v == exp and type(v) is type(exp)
 
 
 def r2(repo, res):
-    f, sn, an = lift_update(repo)
-    res.analysed(f)
-    cases = []  # (param, given, expected value | 'raise' | 'ignore')
-    for p in ("phase", "male"):
-        for s in TRUE_SPELLINGS:
-            cases.append((p, s, True))
-        for s in FALSE_SPELLINGS:
-            cases.append((p, s, False))
-        for s in MALFORMED_BOOL:
-            cases.append((p, s, "raise"))
-    cases += [("gap", "0.5", 0.5), ("gap", 0.5, 0.5), ("gap", "1", 1.0), ("gap", 1, 1.0), ("gap", "abc", "raise"),
-              ("gap", "1e-1", 0.1),
-              ("cn_max", "5", 5), ("cn_max", 5, 5), ("cn_max", "x", "raise"),
-              ("min_quality", "0", 0), ("threshold", "0", 0.0),
-              ("sam_mappy_preset", "map-ont", "map-ont"),
-              ("cn_solution", ["1", "1"], ["1", "1"]),
-              ("no_such_parameter", "1", "ignore"), ("phase", None, "ignore"), ("gap", None, "ignore")]
-    n_ok = 0
-    for p, given, exp in cases:
+    uf = repo.func("profile::Profile.update")
+    res.analysed(uf, repo.func("profile::Profile.__init__"))
+    try:
+        model = ProfileModel(repo)
+        base = model.new("sample")
+    except (Unfoldable, Raised) as e:
+        res.err("C18.R2", f"Profile constructor is outside the folding language: {e}")
+        return None
+    defaults = {k: v for k, v in base.__dict__.items() if k not in NOT_PARAMETERS}
+    res.floor("C18.R2", "model parameters with a default in Profile.__init__", len(defaults), 25)
+    for k in sorted(set(defaults) - set(TYPES)):
+        res.note(f"C18.R2: parameter {k} (default {defaults[k]!r}) is not in the documented-type table; its default's type is taken as documented")
+    n = 0
+    for prm, dflt in sorted(defaults.items()):
+        typ = TYPES.get(prm, type(dflt))
+        res.ob("C18.R2", uf, f"default of {prm}", type(dflt) is typ,
+               expected=f"default of the documented type {typ.__name__} (the update converts to the type of the current value)",
+               found=f"{dflt!r} ({type(dflt).__name__})", clause="takes exactly the given value with the documented type", key=f"default-type:{prm}")
+        bad = None
         try:
-            kind, val, me = call_update(f, sn, an, {p: given})
+            for given, exp in spellings(typ):
+                me = model.new("sample")
+                kind, val = attempt(lambda: model.update(me, {prm: given}))
+                n += 1
+                if exp == "raise":
+                    ok = kind == "raise" and val == "AldyException"
+                else:
+                    got = me.__dict__.get(prm)
+                    ok = kind == "return" and same(got, exp) and isinstance(val, dict) and set(val) == {prm} and same(val[prm], exp)
+                    others = {k_: v_ for k_, v_ in me.__dict__.items() if k_ != prm and k_ in defaults and not same(v_, defaults[k_])}
+                    ok = ok and not others
+                if not ok:
+                    bad = bad or f"update({{{prm!r}: {given!r}}}): {kind} {val!r}, attribute {me.__dict__.get(prm)!r}; documented: {exp!r}"
+                # programming interface: the constructor applies the same conversion
+                kind2, me2 = attempt(lambda: model.new("sample", **{prm: given}))
+                n += 1
+                ok2 = (kind2 == "raise" and me2 == "AldyException") if exp == "raise" else (kind2 == "return" and same(me2.__dict__.get(prm), exp))
+                if not ok2:
+                    bad = bad or f"Profile(..., {prm}={given!r}): {kind2} {me2 if kind2 == 'raise' else me2.__dict__.get(prm)!r}; documented: {exp!r}"
         except Unfoldable as e:
             res.err("C18.R2", f"Profile.update is outside the folding language: {e}")
-            return
-        if exp == "raise":
-            ok = kind == "raise" and val == "AldyException"
-            found = f"{kind} {val!r}"
-            want = "AldyException"
-        elif exp == "ignore":
-            ok = kind == "return" and val == {} and me.__dict__ == DEFAULTS
-            found = f"{kind} {val!r}; object {'unchanged' if me.__dict__ == DEFAULTS else 'changed'}"
-            want = "ignored: nothing set, nothing returned"
-        else:
-            got = me.__dict__.get(p)
-            ok = (kind == "return" and got == exp and type(got) is type(exp)
-                  and isinstance(val, dict) and val.get(p) == exp and type(val.get(p)) is type(exp))
-            found = f"{kind}; attribute = {got!r} ({type(got).__name__}); returned {val!r}"
-            want = f"{exp!r} ({type(exp).__name__}) set and returned"
-        n_ok += ok
-        res.ob("C18.R2", f, f"update({{{p!r}: {given!r}}})", ok, expected=want, found=found,
-               clause="booleans accept true/false in any letter case, 1/0 and real booleans; numbers are parsed as "
-                      "numbers; unknown names are ignored and malformed values are rejected with an error",
-               key=f"{p}={given!r}")
-    res.count("C18.R2:spellings folded", len(cases))
+            return None
+        res.ob("C18.R2", uf, f"spellings of {prm}", bad is None,
+               expected=f"every spelling of a {typ.__name__} parameter gives the typed value (set and returned, nothing else touched) or AldyException when malformed",
+               found=f"{len(spellings(typ))} spellings x 2 routes agree" if bad is None else bad,
+               clause="booleans accept true/false in any letter case, 1/0 and real booleans; numbers are parsed as numbers; "
+                      "malformed values are rejected with an error", key=f"spellings:{prm}")
+    # unknown names and None are ignored
+    try:
+        me = model.new("sample")
+        val = model.update(me, {"no_such_parameter": "1", "phase": None, "gap": None})
+        ok = val == {} and all(same(me.__dict__[k], v) for k, v in defaults.items())
+        me3 = model.new("sample")
+        cs = model.update(me3, {"cn_solution": ["1", "1"]})
+        ok = ok and me3.cn_solution == ["1", "1"] and cs == {"cn_solution": ["1", "1"]}
+    except (Unfoldable, Raised) as e:
+        res.err("C18.R2", f"Profile.update is outside the folding language: {e}")
+        return None
+    res.ob("C18.R2", uf, "unknown names / None", ok, expected="ignored: nothing set, nothing returned; cn_solution is taken as given", found="ok" if ok else str(val),
+           clause="unknown names are ignored", key="unknown-ignored")
+    res.count("C18.R2:spellings folded", n)
+    return model, defaults
 
 
-def r3(repo, res):
+def r3(repo, res, model, defaults):
+    """Options section of a profile file, with and without explicit parameters, through the folded Profile.load."""
     f = repo.func("profile::Profile.load")
     res.analysed(f)
-    pk = f.args.kwarg.arg if f.args.kwarg else None
-    rets = [n for n in walk_local(f) if isinstance(n, ast.Return) and isinstance(n.value, ast.Call)
-            and call_name(n.value) == "Profile"]
-    res.floor("C18.R3", "Profile(...) returns in Profile.load", len(rets), 1)
-    for r in rets:
-        srcs = []
-        for v in star_kwargs(r.value):
-            srcs += merge_sources(v)
-        txt = [ast.unparse(s) for s in srcs]
-        opt = [i for i, t in enumerate(txt) if "options" in t]
-        par = [i for i, t in enumerate(txt) if t == pk]
-        ok = bool(opt) and bool(par) and max(opt) < min(par)
-        res.ob("C18.R3", f, r.value, ok,
-               expected="keyword merge lists the file's options first and the explicit parameters last (later wins)",
-               found="merge order: " + " , ".join(txt),
-               clause="explicit parameters override the options section of a profile file; both reach the typed update",
-               key="load-merge-order")
-        # explicit keyword arguments of the same call must not collide with user parameters silently
-    # options section must come from the loaded profile
-    c = cfg_of(f)
-    res.ob("C18.R3", f, f, c.is_reachable(c.node_of(rets[0])) if rets else False,
-           expected="constructor call reachable", found="ok", key="load-reachable")
+    n = 0
+    try:
+        for prm, dflt in sorted(defaults.items()):
+            typ = TYPES.get(prm, type(dflt))
+            bad = None
+            sp = spellings(typ)
+            good = [(g, e) for g, e in sp if e != "raise"]
+            for given, exp in sp:
+                model.files["p.yml"] = profile_doc({prm: given})
+                kind, me = attempt(lambda: model.load(GENE, "p.yml"))
+                n += 1
+                ok = (kind == "raise" and me == "AldyException") if exp == "raise" else (kind == "return" and same(me.__dict__.get(prm), exp))
+                if not ok:
+                    bad = bad or f"options {{{prm}: {given!r}}}: {kind} {me if kind == 'raise' else me.__dict__.get(prm)!r}; documented: {exp!r}"
+            # explicit parameter wins over the file
+            (ga, ea), (gb, eb) = good[0], good[-1] if not same(good[-1][1], good[0][1]) else good[1]
+            if typ is bool:
+                (ga, ea), (gb, eb) = ("TRUE", True), ("false", False)
+            for (fo, fe), (po, pe) in (((ga, ea), (gb, eb)), ((gb, eb), (ga, ea))):
+                model.files["p.yml"] = profile_doc({prm: fo})
+                kind, me = attempt(lambda: model.load(GENE, "p.yml", **{prm: po}))
+                n += 1
+                if not (kind == "return" and same(me.__dict__.get(prm), pe)):
+                    bad = bad or f"options {{{prm}: {fo!r}}} + explicit {prm}={po!r}: {kind} {me if kind == 'raise' else me.__dict__.get(prm)!r}; the explicit value {pe!r} wins"
+            res.ob("C18.R3", f, f"options section: {prm}", bad is None,
+                   expected="options of a profile file take the documented typed value (or AldyException); explicit parameters override them",
+                   found="agrees" if bad is None else bad,
+                   clause="set through ... the options section of a profile file takes exactly the given value with the documented type", key=f"options:{prm}")
+        # a file without options, unknown option names, the data and the neutral region reach the object
+        model.files["p.yml"] = profile_doc({"no_such_option": 1})
+        me = model.load(GENE, "p.yml")
+        model.files["q.yml"] = profile_doc()
+        me2 = model.load(GENE, "q.yml", gap="0.25")
+        ok = all(same(me.__dict__[k], v) for k, v in defaults.items() if k != "neutral_value") and me2.gap == 0.25 \
+            and tuple(me.cn_region) == ("22", 100, 110) and me.neutral_value == 10 and me.data == model.files["p.yml"]
+    except Raised as e:
+        res.ob("C18.R3", f, f, False, expected="a well-formed profile file loads", found=f"raises {e}", key="load-plain")
+        return
+    except Unfoldable as e:
+        res.err("C18.R3", f"Profile.load is outside the folding language: {e}")
+        return
+    res.ob("C18.R3", f, f, ok, expected="unknown options are ignored; a file without options loads with defaults plus the explicit parameters; the neutral value and region come from the file",
+           found="ok" if ok else f"{me.__dict__}", key="load-plain")
+    res.count("C18.R3:loads folded", n)
 
 
 def fold_param_loop(loop: ast.For, params_in):
@@ -285,59 +387,64 @@ def r4(repo, res):
                key="siblings-agree")
 
 
-def r5(repo, res):
+def r5(repo, res, model, defaults):
+    """Profile command: written options are the typed values; loading the written document gives the same parameter
+    values; the result does not depend on what was applied to other profile objects before (history)."""
     f = repo.func("profile::Profile.get_sam_profile_data")
-    res.analysed(f)
-    ups = [x for x in find_calls(f, "update") if isinstance(x.func, ast.Attribute)
-           and isinstance(x.func.value, ast.Call) and call_name(x.func.value) == "Profile"]
-    ok = False
-    found = "no Profile(...).update(params) call"
-    store = None
-    if ups:
-        u = ups[0]
-        # for k, v in <update result>.items(): d["options"][k] = v
-        for n in walk_local(f):
-            if isinstance(n, ast.For) and u in list(ast.walk(n.iter)):
-                st = [s for s in n.body if isinstance(s, ast.Assign) and "options" in ast.unparse(s.targets[0])]
-                if st and isinstance(n.target, ast.Tuple) and len(n.target.elts) == 2:
-                    k, v = [e.id for e in n.target.elts]
-                    s = st[0]
-                    ok = (ast.unparse(s.value) == v and ast.unparse(s.targets[0]).endswith(f"[{k}]")
-                          and ast.unparse(u.args[0]) == "params")
-                    found = ast.unparse(s)
-                    store = s
-    res.ob("C18.R5", f, store if store is not None else f, ok,
-           expected="d['options'][k] = v for k, v in Profile(...).update(params).items()  (typed values are written)",
-           found=found, clause="a profile written by the profile command carries the same parameter values", key="options-written")
-    # idempotence of the typed update on its own results
-    uf, sn, an = lift_update(repo)
-    for p, given in [("phase", "false"), ("phase", "TRUE"), ("male", "1"), ("gap", "0.3"), ("cn_max", "7"),
-                     ("sam_mappy_preset", "map-ont")]:
-        try:
-            k1, v1, _ = call_update(uf, sn, an, {p: given})
-            if k1 != "return":
-                res.ob("C18.R5", uf, f"round trip {p}={given!r}", False, "typed value", f"{k1} {v1}", key=f"rt|{p}={given!r}")
-                continue
-            k2, v2, me2 = call_update(uf, sn, an, dict(v1))
-        except Unfoldable as e:
-            res.err("C18.R5", f"cannot fold Profile.update: {e}")
-            return
-        ok = k2 == "return" and v2 == v1 and all(type(v2[x]) is type(v1[x]) for x in v1)
-        res.ob("C18.R5", uf, f"round trip {p}={given!r}", ok, expected=f"update(update(x)) == update(x) == {v1}",
-               found=f"{k2} {v2}", key=f"rt|{p}={given!r}")
-    # Profile.load hands prof['options'] to the constructor (checked in R3) -- make sure the key agrees
     lf = repo.func("profile::Profile.load")
-    wkey = any(isinstance(n, ast.Constant) and n.value == "options" for n in ast.walk(lf))
-    res.ob("C18.R5", lf, lf, wkey, expected="reader and writer use the same section key 'options'",
-           found="ok" if wkey else "Profile.load does not read 'options'", key="options-key")
+    res.analysed(f, lf)
+    regions = lambda: {("G", "e1", 0): _GR("22", 10, 20)}  # noqa
+    given, want = {}, {}
+    for prm, dflt in sorted(defaults.items()):
+        typ = TYPES.get(prm, type(dflt))
+        good = [(g, e) for g, e in spellings(typ) if e != "raise" and isinstance(g, str) and not same(e, dflt)]
+        if good:
+            given[prm], want[prm] = good[0]
+    bad = None
+    try:
+        # history: other profile objects were given other parameters first
+        model.new("earlier", gap="0.3", male="1")
+        model.update(model.new("earlier2"), {"cn_max": "7"})
+        for subset in (dict(list(given.items())[:3]), given, {"phase": "FALSE"}, {}):
+            doc = model.write("<illumina>", None, regions(), None, "hg19", dict(subset))
+            exp = {k: want.get(k, False) for k in subset}
+            opts = doc.get("options")
+            if subset and not (isinstance(opts, dict) and set(opts) == set(exp) and all(same(opts[k], exp[k]) for k in exp)):
+                bad = bad or f"profile command with {subset}: options written {opts}; the typed values {exp} are expected, nothing else"
+            if not subset and opts:
+                bad = bad or f"profile command without parameters wrote options {opts}"
+            if not (doc.get("G") == {"e1": [10]} and isinstance(doc.get("neutral"), dict) and "value" in doc["neutral"] and "hg19" in doc["neutral"]):
+                bad = bad or f"profile document lacks gene or neutral data: {doc}"
+            model.files["w.yml"] = copy.deepcopy({k: (list(v) if isinstance(v, tuple) else v) for k, v in doc.items()})
+            model.files["w.yml"]["neutral"] = {k: (list(v) if isinstance(v, (tuple, list)) else v) for k, v in doc["neutral"].items()}
+            me = model.load(GENE, "w.yml")
+            for k, dv in defaults.items():
+                ev_ = exp.get(k, dv)
+                if k == "neutral_value":
+                    continue
+                if not same(me.__dict__.get(k), ev_):
+                    bad = bad or f"written with {subset} and loaded again: {k} = {me.__dict__.get(k)!r}, expected {ev_!r}"
+    except Raised as e:
+        res.ob("C18.R5", f, f, False, expected="the profile command writes well-formed parameters and the loader reads them back", found=f"raises {e}", key="round-trip")
+        return
+    except Unfoldable as e:
+        res.err("C18.R5", f"profile writer / loader outside the folding language: {e}")
+        return
+    res.ob("C18.R5", f, f, bad is None,
+           expected="the profile command writes exactly the typed values of the given parameters under 'options'; the loader reads the same values back; "
+                    "parameters applied to other profile objects earlier do not leak in",
+           found=f"{len(given)} parameters round-trip" if bad is None else bad,
+           clause="a profile written by the profile command with parameters and loaded again carries the same parameter values", key="round-trip")
 
 
 def run(repo, res):
     r1(repo, res)
-    r2(repo, res)
-    r3(repo, res)
+    m = r2(repo, res)
+    if m is None:
+        return
+    r3(repo, res, *m)
     r4(repo, res)
-    r5(repo, res)
+    r5(repo, res, *m)
 
 
 MUTANTS = [
